@@ -266,6 +266,127 @@ let csync_line line =
     Printf.printf "%s %s sent=%d skipped=%d conflicts=%d F=%s\n" id (if conflicts = 0 then "EXIT0" else "EXITERR")
       (int_of_nat sent) (int_of_nat skipped) conflicts (tree_str t)
   | _ -> ()
+(* ---------------- C20: codecs ---------------- *)
+(* exact decimal of an extracted Z in 0 .. 2^64-1 (OCaml's int is 63-bit) *)
+let u64s z =
+  let rec bits n p = if n > 64 then failwith "u64s: more than 64 bits" else
+    match p with XH -> 1L | XO q -> Int64.shift_left (bits (n + 1) q) 1
+               | XI q -> Int64.logor (Int64.shift_left (bits (n + 1) q) 1) 1L in
+  match z with Z0 -> "0" | Zpos p -> Printf.sprintf "%Lu" (bits 1 p) | Zneg _ -> failwith "u64s: negative"
+let hexz (l : z list) =
+  if l = [] then "-" else begin
+    let b = Buffer.create 64 in
+    List.iter (fun x -> Buffer.add_string b (Printf.sprintf "%02x" (int_of_z x))) l; Buffer.contents b end
+let zl_of_hex_fast s =
+  if s = "-" then [] else begin
+    let n = String.length s / 2 in
+    let tbl = Array.init 256 z_of_int in
+    let hv c = match c with '0'..'9' -> Char.code c - 48 | 'a'..'f' -> Char.code c - 87 | 'A'..'F' -> Char.code c - 55 | _ -> failwith "hex" in
+    let r = ref [] in
+    for i = n - 1 downto 0 do r := tbl.(16 * hv s.[2 * i] + hv s.[2 * i + 1]) :: !r done; !r end
+
+let c20_err = function
+  | EIo -> "ERR_IO" | EType -> "ERR_TYPE" | EMagic -> "ERR_MAGIC" | EVersion -> "ERR_VERSION"
+  | ELength -> "ERR_LENGTH" | EDecode -> "ERR_DECODE" | EPayload -> "ERR_PAYLOAD"
+let c20_hdr h =
+  Printf.sprintf "magic=%s len=%s type=%s ver=%s flags=%s" (hexz [h.h_m0; h.h_m1; h.h_m2; h.h_m3])
+    (u64s h.h_length) (u64s (mt_code h.h_type)) (u64s h.h_version) (u64s h.h_flags)
+let c20_sig (s : z list signature) =
+  Printf.sprintf "SIG %s %s %s" (u64s s.s_block_size) (u64s s.s_file_size)
+    (if s.s_blocks = [] then "-" else
+     String.concat "," (List.map (fun b -> u64s b.b_idx ^ ":" ^ u64s b.b_weak ^ ":" ^ hexz b.b_strong) s.s_blocks))
+let c20_ops ops =
+  if ops = [] then "-" else
+  String.concat "," (List.map (function
+    | Copy (o, l) -> "C" ^ u64s o ^ ":" ^ u64s l
+    | Lit d -> "L" ^ hexz d) ops)
+let c20_delta (d : z list delta) =
+  Printf.sprintf "DELTA %s %s %s %s %s" (u64s d.d_block_size) (u64s d.d_source_size) (u64s d.d_basis_size)
+    (c20_ops d.d_ops) (hexz d.d_checksum)
+let c20_msg = function
+  | MSigReq (f, b) -> Printf.sprintf "SIGREQ %s %s" (u64s f) (u64s b)
+  | MSigResp (f, s) -> Printf.sprintf "SIGRESP %s %s" (u64s f) (c20_sig s)
+  | MDeltaData (f, d) -> Printf.sprintf "DELTADATA %s %s" (u64s f) (c20_delta d)
+  | MAck (f, ok, m) -> Printf.sprintf "ACK %s %d %s" (u64s f) (if ok then 1 else 0)
+                         (match m with None -> "N" | Some s -> "S" ^ hexz s)
+  | MError (c, s) -> Printf.sprintf "ERROR %s %s" (u64s c) (hexz s)
+  | MPing s -> "PING " ^ u64s s
+  | MPong s -> "PONG " ^ u64s s
+
+let c20_parse_sig = function
+  | bs :: fs :: blocks :: _ ->
+    { s_block_size = z_of_dec bs; s_file_size = z_of_dec fs;
+      s_blocks = if blocks = "-" then [] else
+        List.map (fun t -> match String.split_on_char ':' t with
+          | [i; w; h] -> { b_idx = z_of_dec i; b_weak = z_of_dec w; b_strong = zl_of_hex_fast h }
+          | _ -> failwith "bad block") (String.split_on_char ',' blocks) }
+  | _ -> failwith "bad SIG"
+let c20_parse_ops s =
+  if s = "-" then [] else
+  List.map (fun t ->
+    if t.[0] = 'C' then
+      (match String.split_on_char ':' (String.sub t 1 (String.length t - 1)) with
+       | [o; l] -> Copy (z_of_dec o, z_of_dec l) | _ -> failwith "bad op")
+    else Lit (zl_of_hex_fast (String.sub t 1 (String.length t - 1)))) (String.split_on_char ',' s)
+let c20_parse_delta = function
+  | bs :: ss :: bz :: ops :: ck :: _ ->
+    { d_block_size = z_of_dec bs; d_source_size = z_of_dec ss; d_basis_size = z_of_dec bz;
+      d_ops = c20_parse_ops ops; d_checksum = zl_of_hex_fast ck }
+  | _ -> failwith "bad DELTA"
+let c20_parse_msg = function
+  | "SIGREQ" :: f :: b :: _ -> MSigReq (z_of_dec f, z_of_dec b)
+  | "SIGRESP" :: f :: "SIG" :: r -> MSigResp (z_of_dec f, c20_parse_sig r)
+  | "DELTADATA" :: f :: "DELTA" :: r -> MDeltaData (z_of_dec f, c20_parse_delta r)
+  | "ACK" :: f :: ok :: m :: _ ->
+    MAck (z_of_dec f, ok = "1", if m = "N" then None else Some (zl_of_hex_fast (String.sub m 1 (String.length m - 1))))
+  | "ERROR" :: c :: s :: _ -> MError (z_of_dec c, zl_of_hex_fast s)
+  | "PING" :: s :: _ -> MPing (z_of_dec s)
+  | "PONG" :: s :: _ -> MPong (z_of_dec s)
+  | _ -> failwith "bad message"
+
+(* `<id> <KIND> args...` -> `<id> <result>`; formats documented in harness/src/c20.rs *)
+let c20_line line =
+  match split_ws line with
+  | id :: kind :: args ->
+    let utf8_of flag = (fun (_ : z list) -> flag = "1") in
+    let res = match kind, args with
+      | "HDR", h :: _ ->
+        (match header_decode (zl_of_hex_fast h) with ROk hd -> "OK " ^ c20_hdr hd | RErr e -> c20_err e)
+      | "HDRREAD", h :: _ ->
+        (match read_from (zl_of_hex_fast h) with
+         | ROk (hd, rest) -> Printf.sprintf "OK %s rest=%d" (c20_hdr hd) (List.length rest)
+         | RErr e -> c20_err e)
+      | "HDRENC", checked :: magic :: len :: ty :: ver :: flags :: _ ->
+        (match zl_of_hex_fast magic, from_u8 (z_of_dec ty) with
+         | [m0; m1; m2; m3], Some t ->
+           let h = { h_m0 = m0; h_m1 = m1; h_m2 = m2; h_m3 = m3; h_length = z_of_dec len; h_type = t;
+                     h_version = z_of_dec ver; h_flags = z_of_dec flags } in
+           (match header_encode_ck (checked = "1") h with Some b -> hexz b | None -> "PANIC")
+         | _ -> failwith "bad HDRENC")
+      | "MSGDEC", h :: u :: _ ->
+        (match decode_message (utf8_of u) (zl_of_hex_fast h) with
+         | Some (m, _) -> "OK " ^ c20_msg m | None -> "ERR_DECODE")
+      | "SIGDEC", h :: _ ->
+        (match decode_signature (zl_of_hex_fast h) with Some (s, _) -> "OK " ^ c20_sig s | None -> "ERR")
+      | "DELTADEC", h :: _ ->
+        (match decode_delta (zl_of_hex_fast h) with Some (d, _) -> "OK " ^ c20_delta d | None -> "ERR")
+      | "CODEC", h :: u :: _ ->
+        (match read_message (utf8_of u) (zl_of_hex_fast h) with
+         | (_, ROk (m, rest)) -> Printf.sprintf "OK %s rest=%d" (c20_msg m) (List.length rest)
+         | (_, RErr e) -> c20_err e)
+      | "MSGENC", m -> hexz (encode_message (c20_parse_msg m))
+      | "SIGENC", "SIG" :: r -> hexz (encode_signature (c20_parse_sig r))
+      | "DELTAENC", "DELTA" :: r -> hexz (encode_delta (c20_parse_delta r))
+      | "CODECENC", m ->
+        (match write_message (c20_parse_msg m) with ROk b -> hexz b | RErr e -> c20_err e)
+      | "CLIDELTA", h :: _ ->
+        (match run_delta_top (zl_of_hex_fast h) with Proceed _ -> "PROCEED" | CliError -> "EXITERROR")
+      | "CLIPATCH", h :: _ ->
+        (match run_patch_top (zl_of_hex_fast h) with Proceed _ -> "PROCEED" | CliError -> "EXITERROR")
+      | _ -> failwith ("c20: bad case line " ^ id) in
+    print_string id; print_char ' '; print_endline res
+  | _ -> ()
+
 
 let () =
   match Array.to_list Sys.argv with
@@ -281,4 +402,5 @@ let () =
   | _ :: "crefuse" :: file :: _ -> iter_lines file (fun line -> match split_ws line with
       | id :: p :: _ -> Printf.printf "%s %s\n" id (if refused (zl_of_hex p) then "REFUSED" else "ACCEPTED")
       | _ -> ())
+  | _ :: "c20" :: file :: _ -> iter_lines file c20_line
   | _ -> prerr_endline "usage: driver <kind> <cases file>"; exit 2
